@@ -93,12 +93,13 @@ Print Assumptions c17_survivor_keeps_deps.
    last) finalises all 32 objects. *)
 Example c17_any_order_nonvacuous :
   forallb (fun p => scenario_ok p false && scenario_ok p true) [PubSub; Event; ReqRes; Blackboard] = true /\
+  (let '(g, H) := scenario_rr2 in wf_instb keep_edges g H) = true /\
   (let '(g, H) := scenario PubSub true in
    match run_all keep_edges g (map (fun k => nth k H 0) [5; 0; 2; 4; 1; 6; 3; 7]) (init g H) with
    | Done s => Nat.eqb (List.length (flog s)) 32 && Nat.eqb (nobjs g) 32
    | _ => false
    end) = true.
-Proof. split; vm_compute; reflexivity. Qed.
+Proof. repeat split; vm_compute; reflexivity. Qed.
 Print Assumptions c17_any_order_nonvacuous.
 
 (* the hypotheses of c17_any_order_generated hold for the harness's graphs (same witness) *)
@@ -120,3 +121,44 @@ Example c17_survivor_keeps_deps_nonvacuous :
    end) = true.
 Proof. vm_compute; reflexivity. Qed.
 Print Assumptions c17_survivor_keeps_deps_nonvacuous.
+
+(* ------------------------------------------------------------------------------------------
+   The dynamic edge Receiver -> receiver::Connection (mapping of a departed sender's segment).
+   port/details/receiver.rs; the conditions (early exit of the channel scan, keep-on-disconnect,
+   remove-on-poll) are rows of the generated table (own_decisions) and the lemmas below go through
+   only for the conditions the code has now. *)
+
+(* A receiver that polls an expired connection (sender gone) on any channel releases it ONLY IF no
+   channel of that connection has a borrowed chunk: a Sample / Response / ActiveRequest that is
+   still alive keeps the segment mapped.  "retain iff EXISTS a channel with a borrow", for any
+   number of channels; needs the scan over ALL channels (early exit `has_data && has_borrows`). *)
+Theorem c17_expired_connection_kept_while_borrowed : forall (chs : list chan) (c m : nat),
+  poll_expired chs c m = XRemove ->
+  (forall ch, In ch chs -> snd ch = 0) /\ fst (nth c chs (false, 0)) = false.
+Proof. exact expired_removed_no_borrow. Qed.
+Check c17_expired_connection_kept_while_borrowed : forall (chs : list chan) (c m : nat),
+  poll_expired chs c m = XRemove ->
+  (forall ch, In ch chs -> snd ch = 0) /\ fst (nth c chs (false, 0)) = false.
+Print Assumptions c17_expired_connection_kept_while_borrowed.
+Example c17_expired_connection_kept_while_borrowed_nonvacuous :
+  poll_expired [(false, 0); (false, 0)] 1 2 = XRemove /\ poll_expired [(true, 0); (false, 1)] 1 2 = XKeep /\
+  scan_from orb [(true, 0); (false, 1)] false false = (true, false).
+Proof. vm_compute. repeat split; reflexivity. Qed.
+Print Assumptions c17_expired_connection_kept_while_borrowed_nonvacuous.
+
+(* When the sender disappears the connection is kept (as expired) iff some channel has data or a borrow. *)
+Theorem c17_connection_kept_on_disconnect : forall chs,
+  keep_on_disconnect chs = true <-> exists ch, In ch chs /\ (fst ch = true \/ 0 < snd ch).
+Proof. exact keep_on_disconnect_iff. Qed.
+Print Assumptions c17_connection_kept_on_disconnect.
+
+(* FALSE of the code as it is (candidate defect, reproduced by the harness family reqres2): a poll
+   on a channel WITHOUT data releases the expired connection although ANOTHER channel still has a
+   delivered, unreceived chunk (`_has_data` is ignored in receive_from_to_be_removed_connections):
+   the pending response of that other channel loses a response the server sent before it went away.
+   Witness: channels [(data, no borrow); (no data, no borrow)], poll on channel 1.  The partial
+   statement (the polled channel itself has no data, nothing is borrowed) is the theorem above. *)
+Definition c17_expired_connection_keeps_data_full : Prop := expired_keeps_data_full.
+Theorem c17_expired_connection_keeps_data_refuted : ~ c17_expired_connection_keeps_data_full.
+Proof. exact expired_keeps_data_refuted. Qed.
+Print Assumptions c17_expired_connection_keeps_data_refuted.
